@@ -99,9 +99,16 @@ class Orphans(Part):
                     pass
                 t0 = time.time()
             else:
-                line = p.stdout.readline()
+                import select
+
+                r, _, _ = select.select([p.stdout], [], [], 120)
+                line = p.stdout.readline() if r else b""
                 if not line:
-                    raise tree.HarnessError(f"driver produced no pid line (rc={p.poll()}) for {sc}")
+                    # the initiator itself did not get its workers up within 120 s: nothing to conclude about orphans
+                    ctx.count("driver_did_not_start")
+                    from vlib.core import Inconclusive
+
+                    raise Inconclusive(f"driver produced no pid line (rc={p.poll()}) for {sc}")
                 pids = json.loads(line)["pids"]
                 if case["end"] == "killed":
                     time.sleep(case["delay_ms"] / 1000.0)
@@ -110,7 +117,13 @@ class Orphans(Part):
                 elif case["end"] == "exit_gateways":
                     t0 = time.time() + 0.3  # the driver lingers 0.3 s before it calls exit()
                 else:
-                    p.wait(60)
+                    try:
+                        p.wait(90)
+                    except subprocess.TimeoutExpired:
+                        ctx.count("driver_did_not_end")
+                        from vlib.core import Inconclusive
+
+                        raise Inconclusive("the initiator did not end by itself within 90 s") from None
                     t0 = time.time()
             # every worker must disappear by itself
             # a proxied (via) worker only notices once its forwarder has gone through its own ladder (up to 5 s for a
@@ -315,7 +328,7 @@ class InprocPairs(Part):
     iteration of the channel table, for workers whose body allocates channels while the initiator vanishes"""
 
     name = "inproc-pairs"
-    budget = {"quick": 2, "thorough": 64}
+    budget = {"quick": 2, "thorough": 32}
     min_per_shard = 1
     max_shards = 4
 
